@@ -81,8 +81,8 @@ pub fn check_chunk(b: &[u8], loc: &mut Local, strict: bool) {
 }
 
 /// The corrupted chunk must be rejected (typed error, no panic).
-fn must_reject(b: &[u8], what: &str, loc: &mut Local) {
-    let h = hash64(b);
+/// `h` identifies the corrupted input (hash of the fault description; hashing 65 KiB per case would dominate).
+fn must_reject(b: &[u8], what: &str, h: u64, loc: &mut Local) {
     match guard(|| Chunk::try_from(b).is_ok()) {
         Err(p) => {
             loc.note(h, true, "panic");
@@ -263,7 +263,7 @@ pub fn run(args: &Args) -> i32 {
             } else if i != j {
                 unreachable!();
             }
-            must_reject(&b, "bit flips", loc);
+            must_reject(&b, "bit flips", hash64(&(pl, i, j, k)), loc);
         });
     }
     let burst_sizes: Vec<usize> = if thorough { vec![1, 6, 100, 1000, 65535] } else { vec![1, 6, 100, 1000] };
@@ -280,7 +280,7 @@ pub fn run(args: &Args) -> i32 {
             let Some(mask) = burst_mask(len, d[0]) else { return };
             let mut b = base.clone();
             apply_burst(&mut b, off, mask, len);
-            must_reject(&b, "burst", loc);
+            must_reject(&b, "burst", hash64(&(pl, off, len, d[0], 1u8)), loc);
         });
     }
     // single bit flips of larger chunks (position coverage of both CRCs)
@@ -293,7 +293,7 @@ pub fn run(args: &Args) -> i32 {
         rep.run(&format!("flips-1-{}B", base.len()), bits, 60, true, &format!("accepted {}-byte chunk: every single bit flipped", base.len()), |idx, loc| {
             let mut b = base.clone();
             b[(idx / 8) as usize] ^= 1 << (idx % 8);
-            must_reject(&b, "bit flip", loc);
+            must_reject(&b, "bit flip", hash64(&(pl, idx, 2u8)), loc);
         });
     }
     rep.finish()
